@@ -61,3 +61,272 @@ Example C02_example :
   = [true; true; true; true; true].
 Proof. vm_compute. reflexivity. Qed.
 Print Assumptions C02_example.
+
+(* ======================================================================================================
+   The store invariant (TTN/Inv.v): executable checker wfb, its Prop reading wf, preservation by every
+   operation of the model and by operation sequences; diagram totals and the open-leg rules.
+   ====================================================================================================== *)
+From Coq Require Import Bool.
+From PTN Require Import TTN.Inv TTN.InvProofs TTN.InvBuild TTN.InvEdit TTN.InvContract TTN.InvSplit TTN.InvRun TTN.InvWires.
+
+(* the executable checker decides the Prop-level invariant (one root, symmetric links, equal key sets,
+   recorded shapes = tensor shapes, permutations valid, edge wires agree at both ends, no other sharing,
+   acyclic/connected) *)
+Theorem C02_wfb_iff : forall s : store, wfb s = true <-> wf s.
+Proof. exact wfb_iff. Qed.
+Print Assumptions C02_wfb_iff.
+
+Theorem C02_wf_keys_perm : forall s : store, wf s -> Permutation (akeys (tensors s)) (akeys (nodes s)).
+Proof. exact wf_keys_perm. Qed.
+Print Assumptions C02_wf_keys_perm.
+
+(* among the logical axes of all nodes every wire occurs at most twice; exactly the edge wires (leg 0 of a
+   node with a parent) occur twice *)
+Theorem C02_wire_multiplicity : forall (s : store) (w : wire), wfb s = true ->
+  count_occ Nat.eq_dec (all_lax s) w <= 2 /\
+  (count_occ Nat.eq_dec (all_lax s) w = 2 <->
+   exists c cn, aget c (nodes s) = Some cn /\ parent cn <> None /\ nth 0 (lax s c cn) 0 = w).
+Proof. exact wfb_wire_multiplicity. Qed.
+Print Assumptions C02_wire_multiplicity.
+
+(* ---- building ---------------------------------------------------------------------------------------- *)
+Theorem C02_add_root_wfb : forall (s : store) (n : id) (shp : list nat) (s' : store),
+  blank s -> add_root s n shp = Some s' -> wfb s' = true.
+Proof. exact add_root_wfb. Qed.
+Print Assumptions C02_add_root_wfb.
+
+Theorem C02_add_child_preserves_wfb : forall (s : store) (c : id) (shp : list nat) (cleg : nat) (p : id) (pleg : nat) (s' : store),
+  wfb s = true -> add_child s c shp cleg p pleg = Some s' -> wfb s' = true.
+Proof. exact add_child_preserves_wfb. Qed.
+Print Assumptions C02_add_child_preserves_wfb.
+
+(* ---- plain access ------------------------------------------------------------------------------------ *)
+Theorem C02_access_preserves_wfb : forall (s : store) (n : id) (s' : store) (nd : node) (t : sarr),
+  wfb s = true -> access s n = Some (s', nd, t) -> wfb s' = true.
+Proof. exact access_preserves_wfb. Qed.
+Print Assumptions C02_access_preserves_wfb.
+
+Theorem C02_access_totals : forall (s : store) (n : id) (s' : store) (nd : node) (t : sarr),
+  wf s -> access s n = Some (s', nd, t) ->
+  total_atoms s' = total_atoms s /\ Permutation (total_ends s') (total_ends s) /\ open_wires s' = open_wires s.
+Proof.
+  exact (fun s n s' nd t W H => conj (access_total_atoms s n s' nd t W H)
+          (conj (access_total_ends s n s' nd t W H) (access_open_wires s n s' nd t W H))).
+Qed.
+Print Assumptions C02_access_totals.
+
+(* ---- contract_nodes ---------------------------------------------------------------------------------- *)
+Theorem C02_contract_preserves_wfb : forall (s : store) (a b new : id) (s' : store),
+  wfb s = true -> contract_nodes s a b new = Some s' ->
+  (new = a \/ new = b \/ ~ In new (akeys (nodes s))) -> wfb s' = true.
+Proof. exact contract_preserves_wfb. Qed.
+Print Assumptions C02_contract_preserves_wfb.
+
+Theorem C02_contract_total_atoms : forall (s : store) (a b new : id) (s' : store),
+  wf s -> contract_nodes s a b new = Some s' -> (new = a \/ new = b \/ ~ In new (akeys (nodes s))) ->
+  Permutation (total_atoms s') (total_atoms s).
+Proof. exact contract_total_atoms. Qed.
+Print Assumptions C02_contract_total_atoms.
+
+(* the contracted wire's two axis ends become one bound wire, counted twice *)
+Theorem C02_contract_total_ends : forall (s : store) (a b new : id) (s' : store),
+  wf s -> contract_nodes s a b new = Some s' -> (new = a \/ new = b \/ ~ In new (akeys (nodes s))) ->
+  Permutation (total_ends s') (total_ends s).
+Proof. exact contract_total_ends. Qed.
+Print Assumptions C02_contract_total_ends.
+
+(* open-leg rule: the new node's open wires are a's followed by b's; every other node keeps its logical axes *)
+Theorem C02_contract_open_rule : forall (s : store) (a b new : id) (s' : store) (na nb : node),
+  wf s -> contract_nodes s a b new = Some s' -> (new = a \/ new = b \/ ~ In new (akeys (nodes s))) ->
+  aget a (nodes s) = Some na -> aget b (nodes s) = Some nb ->
+  exists nn, aget new (nodes s') = Some nn /\
+    open_of nn (tens s' new) = open_of na (tens s a) ++ open_of nb (tens s b) /\
+    forall k nk, aget k (nodes s) = Some nk -> k <> a -> k <> b ->
+      exists nk', aget k (nodes s') = Some nk' /\ lax s' k nk' = lax s k nk /\
+                  open_of nk' (tens s' k) = open_of nk (tens s k).
+Proof. exact contract_open_rule. Qed.
+Print Assumptions C02_contract_open_rule.
+
+(* ---- rename ------------------------------------------------------------------------------------------ *)
+Theorem C02_rename_preserves_wfb : forall (s : store) (new old : id) (s' : store),
+  wfb s = true -> rename s new old = Some s' -> wfb s' = true.
+Proof. exact rename_preserves_wfb. Qed.
+Print Assumptions C02_rename_preserves_wfb.
+
+Theorem C02_rename_totals : forall (s : store) (new old : id) (s' : store),
+  wf s -> rename s new old = Some s' ->
+  Permutation (total_atoms s') (total_atoms s) /\ Permutation (total_ends s') (total_ends s) /\
+  Permutation (open_wires s') (open_wires s).
+Proof.
+  exact (fun s new old s' W H => conj (rename_total_atoms s new old s' W H)
+          (conj (rename_total_ends s new old s' W H) (rename_open_wires s new old s' W H))).
+Qed.
+Print Assumptions C02_rename_totals.
+
+(* every node k is found under its renamed key with parent/children renamed pointwise and the same logical axes *)
+Theorem C02_rename_lax : forall (s : store) (new old : id) (s' : store) (k : id) (nk : node),
+  wf s -> rename s new old = Some s' -> aget k (nodes s) = Some nk ->
+  exists nk', aget (ren1 old new k) (nodes s') = Some nk' /\ parent nk' = option_map (ren1 old new) (parent nk) /\
+              children nk' = map (ren1 old new) (children nk) /\ lax s' (ren1 old new k) nk' = lax s k nk.
+Proof. exact rename_lax. Qed.
+Print Assumptions C02_rename_lax.
+
+(* ---- replace_tensor ------------------------------------------------------------------------------------ *)
+(* the code compares dimensions only: a replacement whose permutation does not undo the transposition can
+   put wires on the wrong legs when dimensions coincide (model-level witness) *)
+Theorem C02_replace_tensor_needs_inverse :
+  let s := fst (run empty_store [AddRoot 0 [2; 2]; AddChild 1 [2; 3] 0 0 0]) in
+  wfb s = true /\
+  match replace_tensor s 0 [1; 0] None with Some s' => wfb s' = false | None => False end.
+Proof. exact replace_tensor_wfb_counterexample. Qed.
+Print Assumptions C02_replace_tensor_needs_inverse.
+
+Theorem C02_replace_tensor_preserves_wfb : forall (s : store) (n : id) (q : list nat) (p : option (list nat)) (s' : store),
+  wfb s = true -> replace_tensor s n q p = Some s' ->
+  inverse_of (match p with Some p' => p' | None => seq 0 (length q) end) q -> wfb s' = true.
+Proof. exact replace_tensor_preserves_wfb. Qed.
+Print Assumptions C02_replace_tensor_preserves_wfb.
+
+Theorem C02_replace_tensor_totals : forall (s : store) (n : id) (q : list nat) (p : option (list nat)) (s' : store),
+  wf s -> replace_tensor s n q p = Some s' ->
+  inverse_of (match p with Some p' => p' | None => seq 0 (length q) end) q ->
+  total_atoms s' = total_atoms s /\ Permutation (total_ends s') (total_ends s) /\ open_wires s' = open_wires s.
+Proof.
+  exact (fun s n q p s' W H I => conj (replace_tensor_total_atoms s n q p s' W H I)
+          (conj (replace_tensor_total_ends s n q p s' W H I) (replace_tensor_open_wires s n q p s' W H I))).
+Qed.
+Print Assumptions C02_replace_tensor_totals.
+
+Theorem C02_replace_tensor_lax : forall (s : store) (n : id) (q : list nat) (p : option (list nat)) (s' : store) (k : id) (nk : node),
+  wf s -> replace_tensor s n q p = Some s' ->
+  inverse_of (match p with Some p' => p' | None => seq 0 (length q) end) q ->
+  aget k (nodes s) = Some nk ->
+  exists nk', aget k (nodes s') = Some nk' /\ parent nk' = parent nk /\ children nk' = children nk /\ lax s' k nk' = lax s k nk.
+Proof. exact replace_tensor_lax. Qed.
+Print Assumptions C02_replace_tensor_lax.
+
+(* ---- insert_identity ----------------------------------------------------------------------------------- *)
+Theorem C02_insert_identity_preserves_wfb : forall (s : store) (c p new : id) (s' : store),
+  wfb s = true -> insert_identity s c p new = Some s' -> wfb s' = true.
+Proof. exact insert_identity_preserves_wfb. Qed.
+Print Assumptions C02_insert_identity_preserves_wfb.
+
+(* one new atom (the identity), the fresh wire contributes two ends, open legs unchanged *)
+Theorem C02_insert_identity_totals : forall (s : store) (c p new : id) (s' : store),
+  wf s -> insert_identity s c p new = Some s' ->
+  total_atoms s' = total_atoms s ++ [next_atom s] /\
+  Permutation (total_ends s') (next_wire s :: next_wire s :: total_ends s) /\
+  open_wires s' = open_wires s.
+Proof.
+  exact (fun s c p new s' W H => conj (insert_identity_total_atoms s c p new s' W H)
+          (conj (insert_identity_total_ends s c p new s' W H) (insert_identity_open_wires s c p new s' W H))).
+Qed.
+Print Assumptions C02_insert_identity_totals.
+
+(* ---- split_nodes --------------------------------------------------------------------------------------- *)
+(* spec_ok: the two leg specifications describe the node truthfully (named parent is the parent, root flag
+   only on the root, listed children are children, listed open legs are open legs); ids_ok: each new
+   identifier is the split node's own or unused.  Both are necessary (InvSplit.split_bad_*_counterexample). *)
+Theorem C02_split_preserves_wfb : forall (s : store) (n : id) (o i : legspec) (oid iid : id) (kind : nat) (m : mode) (rbond : nat) (s' : store),
+  wfb s = true -> split_nodes s n o i oid iid kind m rbond = Some s' ->
+  spec_ok s n o i -> ids_ok s n oid iid -> wfb s' = true.
+Proof. exact split_preserves_wfb. Qed.
+Print Assumptions C02_split_preserves_wfb.
+
+(* the atoms of the split tensor are replaced by the two fresh factor atoms *)
+Theorem C02_split_total_atoms : forall (s : store) (n : id) (o i : legspec) (oid iid : id) (kind : nat) (m : mode) (rbond : nat) (s' : store),
+  wf s -> split_nodes s n o i oid iid kind m rbond = Some s' -> ids_ok s n oid iid ->
+  exists rest, Permutation (total_atoms s) (atoms (tens s n) ++ rest) /\
+               Permutation (total_atoms s') (next_atom s :: S (next_atom s) :: rest).
+Proof. exact split_total_atoms. Qed.
+Print Assumptions C02_split_total_atoms.
+
+(* wire ends: the split tensor's axes are distributed over the two factors, the fresh bond appears twice,
+   its bound wires move into the recorded definition *)
+Theorem C02_split_total_ends : forall (s : store) (n : id) (o i : legspec) (oid iid : id) (kind : nat) (m : mode) (rbond : nat) (s' : store),
+  wf s -> split_nodes s n o i oid iid kind m rbond = Some s' -> ids_ok s n oid iid ->
+  exists rest, Permutation (total_ends s) (sarr_ends (tens s n) ++ rest) /\
+               Permutation (total_ends s') (next_wire s :: next_wire s :: axes (tens s n) ++ rest).
+Proof. exact split_total_ends. Qed.
+Print Assumptions C02_split_total_ends.
+
+(* the newest definition: Q . R over the fresh bond equals the split tensor transposed to out-legs ++ in-legs,
+   and the two new tensors are exactly Q (out-legs, bond) and R (bond, in-legs) *)
+Theorem C02_split_new_def : forall (s : store) (n : id) (o i : legspec) (oid iid : id) (kind : nat) (m : mode) (rbond : nat) (s' : store) (d0 : kdef),
+  wf s -> split_nodes s n o i oid iid kind m rbond = Some s' ->
+  exists s1 nd t ol il bd,
+    access s n = Some (s1, nd, t) /\ logical s n = Some t /\
+    find_leg_values nd o = Some ol /\ find_leg_values nd i = Some il /\
+    Permutation (ol ++ il) (seq 0 (length (axes t))) /\
+    bd = sp_bd s kind m rbond (permute 0 ol (axes t)) (permute 0 il (axes t)) /\
+    last (defs s') d0 = {| kq := next_atom s; kr := S (next_atom s); kbond := next_wire s;
+                           kinput := s_transpose (ol ++ il) t; kkind := kind;
+                           kmode := match kind with 0 => Some m | _ => None end |} /\
+    defs s' = defs s ++ [last (defs s') d0] /\
+    aget oid (tensors s') = Some {| axes := permute 0 ol (axes t) ++ [next_wire s]; atoms := [next_atom s]; bnd := [] |} /\
+    aget iid (tensors s') = Some {| axes := next_wire s :: permute 0 il (axes t); atoms := [S (next_atom s)]; bnd := [] |} /\
+    next_wire s' = S (next_wire s) /\ next_atom s' = S (S (next_atom s)) /\
+    dims s' = dims s ++ [(next_wire s, bd)] /\ wdim s' (next_wire s) = bd.
+Proof. exact split_new_def. Qed.
+Print Assumptions C02_split_new_def.
+
+(* open-leg rule: each factor's open wires are the wires named by its specification's open legs, in
+   specification order; every other node keeps its open and owned wires *)
+Theorem C02_split_open_legs : forall (s : store) (n : id) (o i : legspec) (oid iid : id) (kind : nat) (m : mode) (rbond : nat) (s' : store) (nd0 : node),
+  wf s -> split_nodes s n o i oid iid kind m rbond = Some s' -> spec_ok s n o i -> ids_ok s n oid iid ->
+  aget n (nodes s) = Some nd0 ->
+  exists no ni,
+    aget oid (nodes s') = Some no /\ aget iid (nodes s') = Some ni /\
+    open_of no (tens s' oid) = map (fun l => nth l (lax s n nd0) 0) (ls_open o) /\
+    open_of ni (tens s' iid) = map (fun l => nth l (lax s n nd0) 0) (ls_open i) /\
+    (forall k nk, k <> n -> aget k (nodes s) = Some nk ->
+       exists nk', aget k (nodes s') = Some nk' /\ open_of nk' (tens s' k) = open_of nk (tens s k) /\
+                   own_of nk' (tens s' k) = own_of nk (tens s k)).
+Proof. exact split_open_legs. Qed.
+Print Assumptions C02_split_open_legs.
+
+(* the side conditions on identifiers are necessary: model-level witnesses (the model mirrors ttn.py, which
+   checks neither) *)
+Theorem C02_contract_needs_fresh_id :
+  let s := fst (run empty_store [AddRoot 0 [2; 3; 2]; AddChild 1 [2; 2] 1 0 0; AddChild 2 [3; 2] 0 0 1]) in
+  wfb s = true /\
+  match contract_nodes s 0 1 2 with
+  | Some s' => wfb s' = false /\ akeys (nodes s') = [2] /\ option_map children (aget 2 (nodes s')) = Some [2]
+  | None => False
+  end.
+Proof. exact contract_third_id_counterexample. Qed.
+Print Assumptions C02_contract_needs_fresh_id.
+
+(* ---- sequences ------------------------------------------------------------------------------------------ *)
+Theorem C02_step_preserves_wfb : forall (s : store) (o : op) (s' : store),
+  wfb s = true -> op_okb s o = true -> step s o = Some s' -> wfb s' = true.
+Proof. exact step_preserves_wfb. Qed.
+Print Assumptions C02_step_preserves_wfb.
+
+Theorem C02_run_preserves_wf : forall (ops : list op) (s : store), wf s -> ops_ok s ops -> wf (fst (run s ops)).
+Proof. exact run_preserves_wf. Qed.
+Print Assumptions C02_run_preserves_wf.
+
+(* from the empty store the checker accepts every state from the first AddRoot on *)
+Theorem C02_run_wfb_empty : forall ops : list op, ops_ok empty_store ops -> run_wfb empty_store ops = after_root false ops.
+Proof. exact run_wfb_empty. Qed.
+Print Assumptions C02_run_wfb_empty.
+
+(* non-vacuity: the example run satisfies the preconditions and the checker accepts each of its states *)
+Example C02_example_ops_ok :
+  ops_okb empty_store [AddRoot 0 [2; 3; 2]; AddChild 1 [2; 2] 1 0 0; AddChild 2 [3; 2] 0 0 1;
+                       Contract 1 0 1;
+                       Split 1 {| ls_parent := None; ls_children := [2]; ls_open := [1]; ls_root := true |}
+                               {| ls_parent := None; ls_children := []; ls_open := [2]; ls_root := false |} 1 7 0 Reduced 0]
+  = true.
+Proof. vm_compute. reflexivity. Qed.
+Print Assumptions C02_example_ops_ok.
+
+Example C02_example_wfb :
+  run_wfb empty_store [AddRoot 0 [2; 3; 2]; AddChild 1 [2; 2] 1 0 0; AddChild 2 [3; 2] 0 0 1;
+                       Contract 1 0 1;
+                       Split 1 {| ls_parent := None; ls_children := [2]; ls_open := [1]; ls_root := true |}
+                               {| ls_parent := None; ls_children := []; ls_open := [2]; ls_root := false |} 1 7 0 Reduced 0]
+  = [true; true; true; true; true].
+Proof. vm_compute. reflexivity. Qed.
+Print Assumptions C02_example_wfb.
